@@ -2,9 +2,15 @@
    wake_from_mpsc_queue).  Statements over the reachable states of coq/Barrier.v
    (client of the T1 kernel model coq/T1K.v), instrumented with ghost logs
    (BarrierProofs.ist: ent / arr / rets = "entered round k" / fetch_add executed
-   with value v / returned r; erasure: lstep_erase, reachable_ireach). *)
+   with value v / returned r; erasure: lstep_erase, reachable_ireach).
+   [init count rounds]: fiber t performs [nth t rounds 0] consecutive
+   fiber_barrier_wait calls on one barrier initialised with [count].
+
+   round_safe count x          : returned x t k -> count fibers entered their k-th wait
+   round_safe_arrived count x  : returned x t k -> count DISTINCT fibers executed the
+                                 fetch_add of their k-th wait (what correct code gives) *)
 From Coq Require Import List ZArith Lia.
-From LF Require Import Conc T1K Barrier BarrierProofs.
+From LF Require Import Conc T1K Barrier BarrierProofs BarrierInv.
 Import ListNotations.
 Local Open Scope Z_scope.
 
@@ -13,8 +19,10 @@ Local Open Scope Z_scope.
        ireach count rounds x -> round_safe count x.
    Refutation: count = 3, three fibers performing two consecutive rounds each, and a
    49-step schedule after which fiber 0 has returned from its 2nd wait although only
-   fibers 0 and 2 have entered their 2nd wait (and only fiber 0 has arrived in it).
-   The same case replays on the real code: corpus/C12.txt. *)
+   fibers 0 and 2 have entered their 2nd wait (and only fiber 0 has arrived in it):
+   the serial fiber 2 of round 1, still one entry short because fiber 1 has incremented
+   the counter but not yet enqueued, pops the round-2 entry of fiber 0, which it had
+   already released.  The same case replays on the real code: corpus/C12.txt. *)
 Theorem barrier_round_safety_refuted :
   exists (count : Z) (rounds : list nat) (x : ist),
     count = 3 /\ rounds = [2; 2; 2]%nat /\
@@ -31,28 +39,59 @@ Proof.
 Qed.
 Print Assumptions barrier_round_safety_refuted.
 
-(* Two serial fibers inside the pop loop of the waiter list at once (the MPSC
-   single-consumer discipline is broken): count = 3, six fibers, one round each.
-   This needs more participants than count; see barrier_single_consumer below for
-   exactly count participants. *)
-Theorem barrier_single_consumer_refuted :
-  exists (count : Z) (rounds : list nat) (s : st) (t u : nat),
-    count = 3 /\ reachable M (init count rounds) s /\ t <> u /\
-    in_pop_loop s t /\ in_pop_loop s u.
+(* Exactly count fibers, ONE round each, any count >= 1, any schedule:
+   (1) nobody has returned unless count distinct fibers executed their fetch_add
+       (hence also: unless count fibers entered);
+   (2) at most count fetch_adds are ever executed;
+   (3) a fiber that returned 1 (serial) is the one that fetched count-1, and
+   (4) at most one fiber returns 1;
+   (5) at quiescence (no fiber can take a step) every fiber has returned and
+       one of them returned 1. *)
+Theorem barrier_single_round : forall count rounds x,
+  1 <= count -> length rounds = Z.to_nat count -> Forall (fun r => r = 1%nat) rounds ->
+  ireach count rounds x ->
+  round_safe_arrived count x /\ round_safe count x /\
+  Z.of_nat (length (arr x)) <= count /\
+  (forall t k, In (t, k, 1) (rets x) -> k = 1%nat /\ In (t, 1%nat, count - 1) (arr x)) /\
+  (forall t t' k k', In (t, k, 1) (rets x) -> In (t', k', 1) (rets x) -> t = t' /\ k = k') /\
+  (quiescent x ->
+     (forall t, (t < length rounds)%nat -> returned x t 1) /\ (exists t, In (t, 1%nat, 1) (rets x))).
 Proof.
-  exists 3, [1; 1; 1; 1; 1; 1]%nat, (base c_state), 2%nat, 5%nat.
-  pose proof c_facts as [H2 H5].
-  split; [reflexivity|]. split; [exact (ireach_base _ _ _ c_reach)|].
-  split; [discriminate|]. split; [exact H2|exact H5].
+  intros count rounds x Hc Hl F R.
+  destruct (single_round_facts count rounds x Hc Hl F R) as (A & B & C & D).
+  pose proof (ireach_G count Hc rounds x Hl (or_intror F) R) as Gx.
+  destruct (round_safe_of_G count Hc x (ireach_l1 _ _ _ R) Gx) as [_ RS].
+  split; [exact A|]. split; [exact RS|]. split; [exact B|]. split; [exact C|]. split; [exact D|].
+  exact (single_round_quiescent count Hc rounds x Hl F R).
 Qed.
-Print Assumptions barrier_single_consumer_refuted.
+Print Assumptions barrier_single_round.
 
-(* In every configuration (any count >= 1, any number of fibers, any numbers of
-   rounds, any schedule): the k-th executed fetch_add fetches k-1 (arrival numbers
-   are 0,1,2,... in execution order, one arrival per (fiber, call)), and a call
-   returns 1 (serial fiber) exactly when its arrival number is = count-1 modulo
-   count, 0 otherwise — hence exactly one serial fiber in every group of count
-   consecutive arrivals, whatever else goes wrong. *)
+(* count = 1 or 2, exactly count fibers, ANY numbers of consecutive rounds, any
+   schedule: round safety (both forms), one serial fiber per round, and at most
+   one fiber inside the pop loop of the waiter list at any time. *)
+Theorem barrier_reuse_count_le_2 : forall count rounds x,
+  1 <= count <= 2 -> length rounds = Z.to_nat count ->
+  ireach count rounds x ->
+  round_safe_arrived count x /\ round_safe count x /\
+  (forall t t' k, In (t, k, 1) (rets x) -> In (t', k, 1) (rets x) -> t = t') /\
+  (forall t u, in_pop_loop (base x) t -> in_pop_loop (base x) u -> t = u).
+Proof.
+  intros count rounds x [Hc Hc2] Hl R.
+  pose proof (ireach_l1 _ _ _ R) as L.
+  pose proof (ireach_G count Hc rounds x Hl (or_introl Hc2) R) as Gx.
+  destruct (round_safe_of_G count Hc x L Gx) as [RA RS].
+  split; [exact RA|]. split; [exact RS|]. split.
+  - intros t t' k. exact (one_serial_round count Hc x t t' k L Gx).
+  - intros t u. exact (single_consumer_of_G count x t u L Gx).
+Qed.
+Print Assumptions barrier_reuse_count_le_2.
+
+(* In EVERY configuration (any count, any number of fibers, any numbers of rounds,
+   any schedule — including the ones in which round safety fails): the k-th
+   executed fetch_add fetches k-1 (arrival numbers are 0,1,2,... in execution
+   order, one arrival per (fiber, call)), and a call returns 1 (serial fiber)
+   exactly when its arrival number is = count-1 modulo count, 0 otherwise — hence
+   exactly one serial fiber in every group of count consecutive arrivals. *)
 Theorem barrier_one_serial_per_round : forall count rounds x,
   ireach count rounds x ->
   word (mem (base x)) 0%nat = Z.of_nat (length (arr x)) /\
@@ -71,21 +110,47 @@ Theorem barrier_no_return_before_count : forall count rounds x t k r,
 Proof. intros count rounds x t k r. exact (no_return_before_count count rounds x t k r). Qed.
 Print Assumptions barrier_no_return_before_count.
 
-(* Exactly count fibers, one round each, any schedule.
-   (1) nobody has returned unless count distinct fibers executed their fetch_add;
-   (2) at most count fetch_adds;
-   (3) a fiber that returned 1 is the one that fetched count-1, and (4) it is unique. *)
-Theorem barrier_single_round_safety : forall count rounds x,
-  1 <= count -> length rounds = Z.to_nat count -> Forall (fun r => r = 1%nat) rounds ->
-  ireach count rounds x ->
-  round_safe_arrived count x /\
-  Z.of_nat (length (arr x)) <= count /\
-  (forall t k, In (t, k, 1) (rets x) -> k = 1%nat /\ In (t, 1%nat, count - 1) (arr x)) /\
-  (forall t t' k k', In (t, k, 1) (rets x) -> In (t', k', 1) (rets x) -> t = t' /\ k = k').
-Proof. exact single_round_facts. Qed.
-Print Assumptions barrier_single_round_safety.
+(* Two serial fibers inside the pop loop of the waiter list at once (the MPSC
+   single-consumer discipline is broken): count = 3, SIX fibers, one round each.
+   This needs more participants than count.  With exactly count participants and
+   one round, or count <= 2, it cannot happen (barrier_single_consumer below). *)
+Theorem barrier_single_consumer_refuted :
+  exists (count : Z) (rounds : list nat) (s : st) (t u : nat),
+    count = 3 /\ reachable M (init count rounds) s /\ t <> u /\
+    in_pop_loop s t /\ in_pop_loop s u.
+Proof.
+  exists 3, [1; 1; 1; 1; 1; 1]%nat, (base c_state), 2%nat, 5%nat.
+  pose proof c_facts as [H2 H5].
+  split; [reflexivity|]. split; [exact (ireach_base _ _ _ c_reach)|].
+  split; [discriminate|]. split; [exact H2|exact H5].
+Qed.
+Print Assumptions barrier_single_consumer_refuted.
 
-(* count = 1 (every call is serial): round safety for any number of rounds. *)
-Theorem barrier_reuse_count_1 : forall rounds x, ireach 1 rounds x -> round_safe 1 x.
-Proof. exact round_safe_count1. Qed.
-Print Assumptions barrier_reuse_count_1.
+Theorem barrier_single_consumer : forall count rounds x t u,
+  1 <= count -> length rounds = Z.to_nat count ->
+  (count <= 2 \/ Forall (fun r => r = 1%nat) rounds) ->
+  ireach count rounds x ->
+  in_pop_loop (base x) t -> in_pop_loop (base x) u -> t = u.
+Proof.
+  intros count rounds x t u Hc Hl Hr R.
+  exact (single_consumer_of_G count x t u (ireach_l1 _ _ _ R) (ireach_G count Hc rounds x Hl Hr R)).
+Qed.
+Print Assumptions barrier_single_consumer.
+
+(* ---- non-vacuity ---- *)
+(* count = 2, two fibers, two rounds each, run to completion: everybody returned
+   from both rounds, one serial fiber per round *)
+Definition ex2 : ist := irun (iinit 2 [2; 2]%nat) (repeat 0%nat 40 ++ repeat 1%nat 60 ++ repeat 0%nat 60 ++ repeat 1%nat 60 ++ repeat 0%nat 60).
+Example ex_count2_reuse :
+  ireach 2 [2; 2]%nat ex2 /\
+  rets ex2 = [(1%nat, 1%nat, 1); (0%nat, 1%nat, 0); (0%nat, 2%nat, 1); (1%nat, 2%nat, 0)] /\
+  map (status_of (base ex2)) [0; 1]%nat = [SDone; SDone].
+Proof. split; [unfold ex2; apply ireach_irun; apply ir_init|vm_compute; auto]. Qed.
+
+(* count = 3, one round: quiescent final state, all returned *)
+Definition ex3 : ist := irun (iinit 3 [1; 1; 1]%nat) (repeat 0%nat 20 ++ repeat 1%nat 20 ++ repeat 2%nat 40 ++ repeat 0%nat 10 ++ repeat 1%nat 10).
+Example ex_single_round_quiescent :
+  ireach 3 [1; 1; 1]%nat ex3 /\
+  map (status_of (base ex3)) [0; 1; 2]%nat = [SDone; SDone; SDone] /\
+  rets ex3 = [(2%nat, 1%nat, 1); (0%nat, 1%nat, 0); (1%nat, 1%nat, 0)].
+Proof. split; [unfold ex3; apply ireach_irun; apply ir_init|vm_compute; auto]. Qed.
